@@ -68,6 +68,7 @@ fn real_main(args: &[String]) -> i32 {
         "c14-worker" => c14::driver::worker_main(rest),
         "c14-exec" => c14::driver::exec_main(rest),
         "c14-anchor" => c14::anchors::anchor_main(rest),
+        "c14-one" => c14::one_main(rest),
         "selftest" => selftest::main(rest),
         _ => usage(),
     }
